@@ -1201,6 +1201,7 @@ static void cmd_reorder(Toks &T)
     int fi = T.nexti();
     std::vector<long> l2v;
     while (T.more()) l2v.push_back(T.nextl());
+    { J c("Call"); c.s("c", "reorder").s("op", "REORDER").i("r", fi).i("a", -1).i("b", -1); c.done(); }
     J j("Reorder"); j.i("f", fi).arr("l2v", l2v);
     try {
         For &F = getF(fi);
